@@ -9,7 +9,7 @@ from common import hexs
 
 META = {
     "property": "C08",
-    "proof_modules": ["PyodaProofs.C08", "PyodaProofs.C08Create"],
+    "proof_modules": ["PyodaProofs.C08", "PyodaProofs.C08Create", "PyodaProofs.C08Stepped", "PyodaProofs.C08StepsWF"],
     "drivers": ["drv_text"],
     "theorems": [
         "Pyoda.C08.parseDigits_total",
@@ -37,6 +37,20 @@ META = {
         "Pyoda.C08.compileOffset_total",
         "Pyoda.C08.compile_total",
         "Pyoda.C08.invariantCulture_offsetTextsCustom",
+        "Pyoda.C08.parseStep_total",
+        "Pyoda.C08.parseSteps_total",
+        "Pyoda.C08.parseCompiled_total",
+        "Pyoda.C08.parsePat_total",
+        "Pyoda.C08.compileCustom_modelled",
+        "Pyoda.C08.time_parse_total",
+        "Pyoda.C08.offset_parse_total",
+        "Pyoda.C08.date_parse_total",
+        "Pyoda.C08.parsePat_offset_valid",
+        "Pyoda.C08.timeValue_valid",
+        "Pyoda.C08.parseCompiled_time_valid",
+        "Pyoda.C08.compileTime_wf",
+        "Pyoda.C08.time_success_valid",
+        "Pyoda.C08.offset_success_valid",
     ],
     "trusted_base": [
         "str indexing inside _ValueCursor is guarded by the cursor's own length checks (modelled as list operations)",
@@ -44,7 +58,8 @@ META = {
     "partial": [
         "parse_total / success_valid are proved for the modelled parsers only (numeric primitives; ISO date, ISO times, ISO date-times incl. 24:00 roll-over, offset g/G), which model the REPAIRED behaviour (year range check in the ISO fast path, Offset range check, OverflowError of plus_days mapped to a failure, end-of-text by index); on the unrepaired tree the correspondence suite text.iso.parse and the direct oracles report the four defects",
         "pattern creation: compile_total is proved for LocalTime, LocalDate (ISO template) and Offset patterns (custom texts, standard letters, Z prefix, composites), tied to the real builders by suite text.pat.compile (outcome class, used-field mask, number of actions); LocalDateTime/Instant (embedded patterns), Duration and AnnualDate creation and the sample formatting done at construction are covered by the malformed-pattern oracle only",
-        "step language beyond the built-in ISO patterns, ICU-derived culture data, non-ASCII case folding: direct oracles only; exceptions originating in ICU or in culture construction are outside the model",
+        "generic engine (tied to the code by suites text.pat.compile/fmt/parse): parse_total and success_value_valid hold for EVERY accepted LocalTime and Offset pattern text in every culture record (time_parse_total, offset_parse_total, time_success_valid, offset_success_valid); for LocalDate (ISO template) parse_total holds for every pattern without era/calendar fields (date_parse_total), success_value_valid only for the ISO fast path (iso_date_success_valid)",
+        "NOT covered by theorems: era and calendar fields, non-ISO calendars, LocalDateTime/Instant (embedded patterns, 24:00 outside the ISO patterns), Duration and AnnualDate parsers, str.lower() beyond ASCII, ICU culture data extraction; exceptions originating in ICU or in culture construction are outside the model",
     ],
     "rule": "distinct = distinct (pattern, culture, text) triple / pattern text; non-trivial = the pattern exists and parse was invoked (creation stream: creation was attempted)",
 }
